@@ -46,6 +46,10 @@ structure Shape where
   producerEnforces : Bool
   /-- producer loop: `should_continue = max_bytes is not None and resp_buf.tell() <op> max_bytes` -/
   producerContinue : Cmp
+  /-- the response that *replaces* an oversize unary / exchange body is a fresh stream holding the error batch and
+      nothing else (no client-log batches of the discarded body) -/
+  unaryReplacementOnlyError : Bool
+  exchangeReplacementOnlyError : Bool
 deriving Repr
 
 end VgiVerif.SizeCaps
